@@ -224,6 +224,9 @@ class Scratch:
         return p
 
     def cleanup(self):
+        if os.environ.get("VERIF_KEEP_SCRATCH"):
+            print("scratch kept: %s" % self.dir, file=sys.stderr)
+            return
         shutil.rmtree(self.dir, ignore_errors=True)
 
     def __enter__(self):
